@@ -65,6 +65,54 @@ extern "C" int h_c06() {
   return 0;
 }
 
+// C06 kernel: Data::frame with frames that lack points and/or analogs (replace must not keep anything of the old frame)
+extern "C" int h_c06_data() {
+  const int n = __vp_cfg("n"), variant = __vp_cfg("variant"), where = __vp_cfg("where");   // variant 0 points only, 1 analogs only, 2 empty, 3 both
+  ezc3d::DataNS::Data d;
+  for (int f = 0; f < n; ++f) d.frame(sym_frame(2, 1, 2, "init"));
+  __vp_tag("before"); __vp_obs_u64("dat.nbFrames", d.nbFrames()); for (size_t f = 0; f < d.nbFrames(); ++f) dump_frame(d.frame(f), true);
+  Frame g = sym_frame(variant == 1 || variant == 2 ? 0 : 2, variant == 0 || variant == 2 ? 0 : 1, 2, "new");
+  dump_f(g, "given");
+  size_t idx = where < 0 ? SIZE_MAX : (size_t)where;
+  __vp_tag("call"); __vp_obs_u64("idx", idx);
+  d.frame(g, idx);
+  __vp_tag("after"); __vp_obs_u64("dat.nbFrames", d.nbFrames()); for (size_t f = 0; f < d.nbFrames(); ++f) dump_frame(d.frame(f), true);
+  __vp_reached("c06.end");
+  return 0;
+}
+
+// C06 kernel: the same append / resize-then-assign idiom of Points, Analogs and SubFrame with a free index
+extern "C" int h_c06_inner() {
+  const int kind = __vp_cfg("kind"), n = __vp_cfg("n"), append = __vp_cfg("append");
+  unsigned long idx = append ? SIZE_MAX : __vp_sym_u64("idx");
+  if (!append) __vp_assume(idx <= (unsigned long)n + __vp_cfg("beyond"));
+  __vp_tag("in");
+  if (kind == 0) {
+    Points c; for (int i = 0; i < n; ++i) { Point p; float v = __vp_sym_f32("v"); p.x(v); p.residual(v); __vp_obs_f32("in", v); c.point(p); }
+    Point q; float w = __vp_sym_f32("w"); q.x(w); q.residual(w); q.name("new"); __vp_obs_f32("new", w); __vp_obs_u64("idx", idx);
+    if (append) c.point(q); else c.point(q, idx);
+    __vp_tag("out"); __vp_obs_u64("count", c.nbPoints());
+    const Points& cc = c;
+    for (size_t i = 0; i < cc.nbPoints(); ++i) { __vp_obs_f32("x", cc.point(i).x()); __vp_obs_f32("r", cc.point(i).residual()); __vp_obs_f32("y", cc.point(i).y()); }
+  } else if (kind == 1) {
+    Analogs c; for (int i = 0; i < n; ++i) { SubFrame sf; Channel ch; float v = __vp_sym_f32("v"); ch.data(v); sf.channel(ch); __vp_obs_f32("in", v); c.subframe(sf); }
+    SubFrame q; Channel ch; float w = __vp_sym_f32("w"); ch.data(w); q.channel(ch); __vp_obs_f32("new", w); __vp_obs_u64("idx", idx);
+    if (append) c.subframe(q); else c.subframe(q, idx);
+    __vp_tag("out"); __vp_obs_u64("count", c.nbSubframes());
+    const Analogs& cc = c;
+    for (size_t i = 0; i < cc.nbSubframes(); ++i) { __vp_obs_u64("n", cc.subframe(i).nbChannels()); if (cc.subframe(i).nbChannels()) __vp_obs_f32("x", cc.subframe(i).channel(0).data()); }
+  } else {
+    SubFrame c; for (int i = 0; i < n; ++i) { Channel ch; float v = __vp_sym_f32("v"); ch.data(v); __vp_obs_f32("in", v); c.channel(ch); }
+    Channel q; float w = __vp_sym_f32("w"); q.data(w); q.name("new"); __vp_obs_f32("new", w); __vp_obs_u64("idx", idx);
+    if (append) c.channel(q); else c.channel(q, idx);
+    __vp_tag("out"); __vp_obs_u64("count", c.nbChannels());
+    const SubFrame& cc = c;
+    for (size_t i = 0; i < cc.nbChannels(); ++i) { __vp_obs_f32("x", cc.channel(i).data()); obs_str("name", cc.channel(i).name()); }
+  }
+  __vp_reached("c06.end");
+  return 0;
+}
+
 // ---- C08
 extern "C" int h_c08() {
   const int fam = __vp_cfg("family"), P = __vp_cfg("P"), C = __vp_cfg("C"), S = __vp_cfg("S");
@@ -75,14 +123,15 @@ extern "C" int h_c08() {
     dump_f(f, "given");
     if (fam == 0) c.frame(f); else c.frame(f, 0);
     const int mut = __vp_cfg("mutator");
-    if (mut == 0) { f.points_nonConst().point_nonConst(0).x(__vp_sym_f32("m")); f.points_nonConst().point_nonConst(0).residual(__vp_sym_f32("m")); }
+    if (mut == 0 && P) { f.points_nonConst().point_nonConst(0).x(__vp_sym_f32("m")); f.points_nonConst().point_nonConst(0).residual(__vp_sym_f32("m")); }
     else if (mut == 1) { Point q; q.name("zz"); q.y(__vp_sym_f32("m")); f.points_nonConst().point(q, 0); }
     else if (mut == 2) { Point q; q.name("extra"); f.points_nonConst().point(q); }
-    else if (mut == 3) { f.analogs_nonConst().subframe_nonConst(0).channel_nonConst(0).data(__vp_sym_f32("m")); }
-    else if (mut == 4) { SubFrame sf; f.analogs_nonConst().subframe(sf, 0); }
-    else if (mut == 5) { f.points_nonConst().point_nonConst(0).name("renamed"); }
+    else if (mut == 3 && C) { f.analogs_nonConst().subframe_nonConst(0).channel_nonConst(0).data(__vp_sym_f32("m")); }
+    else if (mut == 4) { SubFrame sf; Channel ch; ch.name("extra"); ch.data(__vp_sym_f32("m")); sf.channel(ch); f.analogs_nonConst().subframe(sf, 0); }
+    else if (mut == 5 && P) { f.points_nonConst().point_nonConst(0).name("renamed"); }
     else if (mut == 6) { Points other; f.add(other); Analogs oa; f.add(oa); }       // replaces the caller's handles
-    else if (mut == 7) { f.points_nonConst().point_nonConst("p0").z(__vp_sym_f32("m")); }
+    else if (mut == 7 && P) { f.points_nonConst().point_nonConst("p0").z(__vp_sym_f32("m")); }
+    else if (mut == 8) { SubFrame sf; Channel ch; ch.name("more"); ch.data(__vp_sym_f32("m")); sf.channel(ch); f.analogs_nonConst().subframe(sf); }   // appends a sub-frame
     __vp_tag("stored"); dump_frame(c.data().frame(0), true);
   } else if (fam == 2) {
     // README idiom: the same frame object appended several times, then column adds
@@ -124,6 +173,15 @@ extern "C" int h_c08() {
     if (how == 0) c.frame(c.data().frame(0));
     else if (how == 1) c.frame(c.data().frame(n - 1), (size_t)n + 1);
     else c.frame(c.data().frame(0), (size_t)n - 1);
+    dump_d(c, "after");
+  }
+  if (fam == 5) {
+    // frames created as a gap by one indexed store must be independent of each other: a column lands once in each
+    const int n = __vp_cfg("times");
+    for (int k = 0; k < n; ++k) c.frame(sym_frame(P, C, S, "f"));
+    c.frame(sym_frame(P, C, S, "g"), (size_t)n + 3);
+    dump_d(c, "before");
+    if (__vp_cfg("column") == 0) c.point("newp"); else c.analog("newa");
     dump_d(c, "after");
   }
   __vp_reached("c08.end");
